@@ -101,6 +101,12 @@ FILES = {"class": "cls.py", "function": "meth.py", "argparse_function": "cli.py"
 
 def cases(tier, seed):
     truths = TRUTHS
+    if tier == "thorough":
+        # every truth of one or two parameters over all nine kinds, and the triples over a three-kind sub-alphabet
+        ks = list(PARAM_KINDS)
+        truths = [[a] for a in ks] + [[a, b] for a in ks for b in ks] + [list(t) for t in itertools.product(("int5", "lit_nodoc", "optstr"), repeat=3)]
+        # a function signature cannot hold a default-less parameter after a defaulted one: such interfaces are outside the common domain of the three kinds
+        truths = [t for i, t in enumerate(truths) if t not in truths[:i] and A.defaults_form_suffix(interface(t))]
     for t in truths:
         for truth in KINDS:
             others = [k for k in KINDS if k != truth]
@@ -178,6 +184,8 @@ def run(case):
     D = interface("different")
     viol = []
     base_ctx = dict(check="sync", truth=truth)
+    if len({("doc" in p) for p in T["params"].values()}) == 2:
+        base_ctx["mixed_doc"] = True  # the truth documents some of its parameters and not others
 
     def v(clause, expected, observed, **extra):
         sig = dict(base_ctx)
@@ -273,7 +281,7 @@ def describe(tier):
         rule="initial states: truth kind in {{class, function, argparse_function}} x {n} truth interfaces (1-3 parameters over 9 kinds, with and without per-parameter descriptions) x each of the two "
         "other targets in {{equivalent, different, near misses (one default changed, one trailing parameter more, last parameter missing, Literal one member short), missing, empty}}; every file holds an unrelated definition before and after its target; transition = "
         "one real `sync` run; runs 1..3 (closes when a run changes nothing); a case = one initial state".format(n=len(TRUTHS)),
-        bounds=dict(truths=TRUTHS, states=STATES, kinds=KINDS, rounds=3),
+        bounds=dict(truths=TRUTHS if tier == "quick" else "all 1- and 2-tuples over %d parameter kinds + 27 triples" % len(PARAM_KINDS), states=STATES, kinds=KINDS, rounds=3),
         exhaustive=True,
         assumptions=["all three kinds are always listed (the command requires it)", "'code outside the targets unchanged' is compared on ASTs: the command re-renders whole files",
                      "target equivalence uses the C02 normalisations of the target's and the truth's format"],
